@@ -264,7 +264,7 @@ func runSys(c *ctx) {
 		for _, rt := range []string{"eds", "rds", "cds", "lds"} {
 			ns := sysNames[rt]
 			for pos := 0; pos <= 3; pos++ {
-				for _, e := range []sysExtra{{pos, "evict", ns[0]}, {pos, "evict", ns[1]}, {pos, "sub", "extra"}, {pos, "get", ns[0]}} {
+				for _, e := range []sysExtra{{pos, "evict", ns[0]}, {pos, "evict", ns[1]}, {pos, "sub", "extra"}, {pos, "get", ns[0]}, {pos, "get", "extra"}} {
 					if c.expired() {
 						return
 					}
@@ -295,6 +295,22 @@ func runSys(c *ctx) {
 		}
 		sysCase(c, rt, ns, second, ex, c.rng.chance(10))
 		c.count("sys.random", 1)
+	}
+}
+
+// runSysLookups: every resource type x a lookup of a cached / an uncached name x every position around the three
+// sections of a response handler (complete).
+func runSysLookups(c *ctx) {
+	for _, rt := range []string{"eds", "rds", "cds", "lds"} {
+		ns := sysNames[rt]
+		for pos := 0; pos <= 3; pos++ {
+			for _, e := range []sysExtra{{pos, "get", ns[0]}, {pos, "get", "extra"}} {
+				if c.expired() {
+					return
+				}
+				sysCase(c, rt, ns, ns, []sysExtra{e}, false)
+			}
+		}
 	}
 }
 
